@@ -178,6 +178,39 @@ def run(chk, repo):
     chk.decide(not pulls, "R2.1", W, "no pull on sig while wiring the STFT", why=str([p.how for p in pulls]), node=wr)
     chk.floor("R2.1", n21, 55, "non-generator stages classified")
 
+    # a stage that was a generator function on the confirmed tree (building it runs nothing) and is an ordinary function
+    # now: whatever it does when called happens at design time - none of its parameters may be pulled there
+    chk.rule("R2.1.gen", "every function that is a generator function in the confirmed snapshot is still one, or pulls "
+                         "nothing from any of its parameters when called")
+    ngen = 0
+    for mname_, rtree_ in sorted(repo.ref_trees.items()):
+        if mname_ not in repo.modules:
+            continue
+        cur_defs = {}
+        for n_ in ast.walk(repo.modules[mname_].tree):
+            if isinstance(n_, FuncTypes):
+                cur_defs.setdefault(n_.name, []).append(n_)
+        ref_count = {}
+        for n_ in ast.walk(rtree_):
+            if isinstance(n_, FuncTypes) and is_generator_function(n_) and n_.args.args:
+                k_ = ref_count.get(n_.name, 0)
+                ref_count[n_.name] = k_ + 1
+                cands = cur_defs.get(n_.name, [])
+                if k_ >= len(cands):
+                    continue
+                cur_ = cands[k_]
+                ngen += 1
+                if is_generator_function(cur_):
+                    continue
+                params_ = [a_.arg for a_ in cur_.args.args if a_.arg not in ("self", "cls")]
+                pulls_ = e2.Silence(cur_, params_).pulls()
+                chk.decide(not pulls_, "R2.1.gen", "%s:%s" % (repo.modules[mname_].relpath, n_.name),
+                           "no longer a generator function: no pull on %s at design time" % params_,
+                           why="the body used to run at the first next(); now %s when the stage is built"
+                               % ", ".join("%s (%s)" % (p_.how, p_.handle) for p_ in pulls_[:3]),
+                           node=pulls_[0].node if pulls_ else cur_)
+    chk.floor("R2.1.gen", ngen, 25, "generator functions of the snapshot found again")
+
     # tostream
     ts = repo.find("lazy_stream", "tostream.new_func")
     body = docstring_free(ts.body)
@@ -252,6 +285,17 @@ def run(chk, repo):
             chk.decide(bool(before), "R2.3.complete", "%s:blocks" % mmod.relpath, "yield leaf [%s] appends the pulled item first" % ctxt,
                        why="a block is emitted on an item that is not part of it: the stage reads past the items the "
                            "block needs (more than (j-1)*hop+size for j blocks)", node=ys[0])
+            # and nothing else is read from the source before the block is handed out (the items skipped when hop > size
+            # are read when the next block is asked for, not before this one is delivered)
+            srcs = {"seq"} | {unparse(a_.targets[0]) for a_ in ast.walk(bl) if isinstance(a_, ast.Assign)
+                              and isinstance(a_.targets[0], ast.Name) and any(isinstance(n_, ast.Name) and n_.id == "seq"
+                                                                               for n_ in ast.walk(a_.value))}
+            early = [s_ for s_ in leaf.stmts[:leaf.stmts.index(ys[0])] if s_ not in apps and any(
+                isinstance(n_, ast.Name) and n_.id in srcs and isinstance(n_.ctx, ast.Load) for n_ in ast.walk(s_))]
+            chk.decide(not early, "R2.3.complete", "%s:blocks" % mmod.relpath,
+                       "yield leaf [%s]: nothing is read from the source between the last item of the block and the yield" % ctxt,
+                       why="%s reads further items before the block is delivered: j blocks cost more than (j-1)*hop+size "
+                           "items" % (short(early[0]) if early else "-"), node=early[0] if early else ys[0])
     chk.floor("R2.3.complete", nlv, 1, "yielding leaves of blocks (2 on the confirmed tree: one per loop)")
 
     # resample: the window advances only once the position is strictly past its centre
